@@ -33,6 +33,9 @@ func NewComponents(spec specification.Components, cfg Config) (zero Components, 
 		if err != nil {
 			return zero, nil, fmt.Errorf("new schema component: %w", err)
 		}
+		if schema.Ref == nil && schema.IsNullable() && schema.Kind() != SchemaKindObject {
+			return zero, nil, fmt.Errorf("schema component %q: 'nullable' on a component of a primitive or array type is not supported (declare it on the property, parameter or items that use the type)", c.Name)
+		}
 		imports = append(imports, ims...)
 
 		s := NewSchemaComponent(c.Name, schema, cs, cfg)
